@@ -214,6 +214,13 @@ func (q *checker) tcheckStatement(n *a.Node) error {
 					return fmt.Errorf("check: iterate assignment to %q, of type %q, does not have slice type",
 						o.LHS().Str(q.tm), typ.Str(q.tm))
 				}
+				for _, p := range n.Assigns() {
+					if p.AsAssign() == o {
+						break
+					} else if p.AsAssign().LHS().Ident() == o.LHS().Ident() {
+						return fmt.Errorf("check: iterate assigns to %q twice", o.LHS().Str(q.tm))
+					}
+				}
 			}
 			// TODO: prohibit jumps (breaks, continues), rets (returns, yields) and
 			// retry-calling ? methods while inside an iterate body.
